@@ -296,6 +296,146 @@ static void on_abort(int) {
   _exit(3);
 }
 
+/// everything that is done for one input (state pattern, gamma, dt fraction)
+/// on a prepared set of drivers (one per layout, [0] = undivided)
+static void check_input(std::vector< std::unique_ptr< StepDriver > > &drivers, const Hydro &hydro, const Case &base,
+                        const uint64_t ordinal, const long seedrot, const bool fresh_check, const bool verbose,
+                        Stats &S) {
+  const std::string cells = pattern_cells(base.pat);
+  const std::vector< Prim > prims = pattern_prims(cells, base.perturb);
+  const Geometry &g0 = drivers[0]->geo;
+  ReferenceResult ref;
+  reference_init(g0, hydro, prims, ref);
+  ++S.inputs;
+  if (!(ref.dt_limit > 0.) || !std::isfinite(ref.dt_limit))
+    return;
+  const double dt = DTFRACS[base.idt] * ref.dt_limit;
+  reference_step(g0, hydro, *drivers[0]->boundaries, dt, ref);
+  ++S.reference_steps;
+  if (ref.safeguard())
+    ++S.safeguard_inputs;
+  std::vector< double > sref, s1, s, s2;
+  ref.state(sref);
+  auto report = [&](const Case &c, const std::string &key, const std::string &detail) {
+    S.violation(key, ordinal, detail + " :: " + case_text(c), case_json(c));
+    if (verbose)
+      printf("VIOLATION %s :: %s\n", key.c_str(), detail.c_str());
+  };
+  auto run = [&](StepDriver &drv, Case &c, std::vector< double > &out) {
+    g_current = &c;
+    drv.load(prims);
+    const double lim = drv.init_conserved(hydro);
+    if (lim != ref.dt_limit)
+      report(c, "C10:stability-limit:layout-dependent",
+             fmt("stability limit %.17g on this layout, %.17g on the global array", lim, ref.dt_limit));
+    const StepTrace tr = drv.step(hydro, dt, c.order, c.seed);
+    drv.state(out);
+    ++S.steps;
+    ++S.order_count[c.order];
+    bool changed = false;
+    for (int g = 0; g < NC && !changed; ++g)
+      for (int j = 0; j < 5; ++j)
+        if (out[10 * g + j] != ref.before[5 * g + j])
+          changed = true;
+    if (changed)
+      ++S.nontrivial;
+    if (tr.stuck || tr.tasks_executed != tr.tasks_total)
+      report(c, "C10:driver:step-incomplete",
+             fmt("only %zu of %zu hydro tasks became executable", tr.tasks_executed, tr.tasks_total));
+    const std::string phys = physical_state_problem(out);
+    if (!phys.empty())
+      report(c, "C10:state:" + phys.substr(0, phys.find(' ')), phys);
+    const long stale = stale_primitives(c.geo, hydro, out);
+    if (stale >= 0)
+      report(c, "C10:state:primitives-stale",
+             fmt("primitive variables of cell %ld are not those of its conserved variables", stale));
+    g_current = nullptr;
+  };
+
+  // undivided grid, queue order
+  Case c1 = base;
+  c1.geo = drivers[0]->geo;
+  c1.order = ORDER_FIFO;
+  c1.seed = 0;
+  run(*drivers[0], c1, s1);
+  ++S.undivided_runs;
+  {
+    std::string worst;
+    const double r = compare_states(s1, sref, ref, S, &S.cells_bitwise_equal_reference, &worst);
+    if (bitwise_equal(s1, sref))
+      ++S.states_bitwise_equal_reference_undivided;
+    if (r > 1.)
+      report(c1, std::string("C10:undivided:differs-from-reference:") + bc_class(c1.geo), worst);
+    else
+      S.max_ratio = std::max(S.max_ratio, r);
+    if (verbose)
+      printf("undivided grid vs plain reference: max difference/tolerance %.3g\n", r);
+  }
+  for (size_t il = 0; il < drivers.size(); ++il) {
+    StepDriver &drv = *drivers[il];
+    // every order policy; the scramble policy with two different sequences
+    const int norder = ORDER_NUMBER + 1;
+    std::vector< double > sfifo;
+    for (int io = 0; io < norder; ++io) {
+      Case c = base;
+      c.geo = drv.geo;
+      c.order = std::min(io, (int)ORDER_SCRAMBLE);
+      c.seed = (io < ORDER_SCRAMBLE) ? 0 : (uint64_t)(ordinal * 2 + (io - ORDER_SCRAMBLE) + seedrot);
+      if (il == 0 && io == 0) {
+        s = s1;
+      } else {
+        run(drv, c, s);
+      }
+      if (io == 0)
+        sfifo = s;
+      std::string worst;
+      const double r1 = compare_states(s, s1, ref, S, &S.cells_bitwise_equal_undivided, &worst);
+      if (r1 > 1.) {
+        // attribute: layout (queue order on this layout already differs) or order
+        std::string w2;
+        const double rf = (io == 0) ? 2. : compare_states(s, sfifo, ref, S, nullptr, &w2);
+        if (io == 0 || rf <= 1.)
+          report(c, std::string("C10:layout:differs-from-undivided:") + bc_class(c.geo), worst);
+        else
+          report(c, std::string("C10:order:result-depends-on-task-order:") + bc_class(c.geo), w2);
+      } else {
+        S.max_ratio = std::max(S.max_ratio, r1);
+        worst.clear();
+        const double r2 = compare_states(s, sref, ref, S, nullptr, &worst);
+        if (r2 > 1.)
+          report(c, std::string("C10:layout:differs-from-reference:") + bc_class(c.geo), worst);
+        else
+          S.max_ratio = std::max(S.max_ratio, r2);
+      }
+      if (verbose)
+        printf("layout %dx%dx%d order %-8s seed %-6" PRIu64 ": max difference/tolerance vs undivided %.3g\n",
+               drv.geo.nsub[0], drv.geo.nsub[1], drv.geo.nsub[2], order_name(c.order), c.seed, r1);
+      // the same order twice: bit for bit
+      if (io == 0 || io == ORDER_SCRAMBLE) {
+        run(drv, c, s2);
+        ++S.bitwise_repeats;
+        if (!bitwise_equal(s, s2))
+          report(c, "C10:repeat:not-bitwise", "the same task order on the same grid gave a different state");
+        if (fresh_check && io == 0) {
+          StepDriver fresh(drv.geo);
+          run(fresh, c, s2);
+          ++S.fresh_repeats;
+          if (!bitwise_equal(s, s2))
+            report(c, "C10:repeat:fresh-grid-not-bitwise",
+                   "a newly built grid and a reused one give different states for the same task order");
+          if (!fresh.observation_functions_agree())
+            report(c, "C10:driver:observation-functions-disagree",
+                   "state_in_global_cell_order / conserved_totals_from_grid differ from the driver's cell map");
+        }
+      }
+    }
+  }
+  if (ordinal % 4099 == 7 || (S.samples.size() < 1 && ref.faces_with_flux > 0))
+    S.samples.push_back(
+        {ordinal, fmt("{\"case\": %s, \"faces_with_flux\": %" PRIu64 ", \"safeguard\": %s, \"dt\": %.17g}",
+                      case_json(base).c_str(), ref.faces_with_flux, ref.safeguard() ? "true" : "false", dt)});
+}
+
 static int replay(const Args &A, Result &R) {
   const std::string txt = read_file(A.replay);
   Case c;
